@@ -193,6 +193,59 @@ def main():
         die("writeCDATA: final close has an unexpected form")
     close_only_if_inside = c.group(1) is not None
 
+    # ---- optional repairs (each must be in one of its two known forms)
+    m = re.search(r"\bwriteNormalizedChar\s*\(\s*XalanDOMChar\s+ch\s*,(.*?)\n    \}\n", uni_hpp, re.S)
+    if not m:
+        die("writeNormalizedChar not found")
+    nb = m.group(1)
+    if re.search(r"start\s*=\s*m_writer\.writeLiteral\s*\(\s*chars\s*,\s*start\s*,\s*length\s*\)", nb):
+        fix_norm_literal = True
+        other = strip_comments(read("XMLSupport/XalanOtherEncodingWriter.hpp"))
+        if not re.search(r"writeLiteral\s*\([^)]*\)\s*\{\s*return\s+write\s*\(\s*chars\s*,\s*start\s*,\s*length\s*,\s*m_exceptionFunctor\s*\)\s*;", other):
+            die("XalanOtherEncodingWriter::writeLiteral has an unexpected form")
+        for rel in ("XMLSupport/XalanUTF8Writer.hpp", "XMLSupport/XalanUTF16Writer.hpp"):
+            if not re.search(r"writeLiteral\s*\([^)]*\)\s*\{\s*return\s+write\s*\(\s*chars\s*,\s*start\s*,\s*length\s*\)\s*;", strip_comments(read(rel))):
+                die(rel + ": writeLiteral has an unexpected form")
+    elif re.search(r"start\s*=\s*m_writer\.write\s*\(\s*chars\s*,\s*start\s*,\s*length\s*\)", nb):
+        fix_norm_literal = False
+    else:
+        die("writeNormalizedChar: the write call has an unexpected form")
+    n_check = len(re.findall(r"\bthrowIfNotACharacter\s*\(\s*(?:ch|theChar)\s*\)\s*;", uni_hpp))
+    if n_check == 0:
+        fix_reject = False
+    elif n_check == 3 and re.search(
+            r"throwIfNotACharacter\s*\(\s*XalanDOMChar\s+ch\s*\)\s*\{\s*if\s*\(\s*isUTF16LowSurrogate\s*\(\s*ch\s*\)\s*==\s*true\s*\)\s*\{\s*"
+            r"throwInvalidUTF16SurrogateException\s*\([^;]*;\s*\}\s*else\s+if\s*\(\s*ch\s*==\s*0\s*\|\|\s*ch\s*>=\s*0xFFFEu\s*\)\s*\{\s*throwInvalidXMLCharacterException", uni_hpp) \
+            and re.search(r"throwIfNotACharacter\s*\(\s*ch\s*\)\s*;\s*if\s*\(\s*XMLVersion\s*==\s*XML_VERSION_1_1\s*&&\s*XalanUnicode::charLSEP\s*==\s*ch", uni_hpp) \
+            and re.search(r"throwIfNotACharacter\s*\(\s*ch\s*\)\s*;\s*start\s*=\s*m_writer\.write", nb) \
+            and re.search(r"throwIfNotACharacter\s*\(\s*theChar\s*\)\s*;\s*i\s*=\s*m_writer\.writeCDATAChar", body):
+        fix_reject = True
+    else:
+        die("throwIfNotACharacter: unexpected definition or call sites (%d calls)" % n_check)
+    if re.search(r"XalanUnicode::charCR\s*==\s*theChar\s*\|\|\s*\(\s*XMLVersion\s*==\s*XML_VERSION_1_1\s*&&\s*\(\s*m_charPredicate\.isCharRefForbidden\s*\(\s*theChar\s*\)\s*\|\|\s*"
+                 r"XalanUnicode::charNEL\s*==\s*theChar\s*\|\|\s*XalanUnicode::charLSEP\s*==\s*theChar\s*\)\s*\)\s*\)\s*\{\s*if\s*\(\s*outsideCDATA\s*==\s*false\s*\)\s*\{\s*m_writer\.write\s*\(\s*"
+                 r"m_constants\.s_cdataCloseString[^;]*;\s*\}\s*writeNumericCharacterReference\s*\(\s*theChar\s*\)\s*;\s*if\s*\(\s*outsideCDATA\s*==\s*false\s*\)\s*\{\s*m_writer\.write\s*\(\s*m_constants\.s_cdataOpenString", body):
+        fix_cdata_ref = True
+    elif "charCR" in body or "charNEL" in body:
+        die("writeCDATAChars: CR/NEL handling has an unexpected form")
+    else:
+        fix_cdata_ref = False
+    u16 = strip_comments(read("XMLSupport/XalanUTF16Writer.hpp"))
+    m = re.search(r"size_type\s+write\s*\(\s*const\s+value_type\s+chars\[\]\s*,\s*size_type\s+start\s*,\s*size_type\s*(?:/\*length\*/|length)?\s*\)\s*\{(.*?)\n    \}\n", u16, re.S)
+    if not m:
+        die("XalanUTF16Writer::write(chars, start, length) not found")
+    wb = re.sub(r"\s+", " ", m.group(1)).strip()
+    if wb == "write(chars[start]); return start;":
+        fix_utf16_pairs = False
+    elif re.fullmatch(r"const XalanDOMChar ch = chars\[start\]; if \(isUTF16HighSurrogate\(ch\) == false\) \{ write\(ch\); \} else if \(start \+ 1 >= length\) \{ "
+                      r"throwInvalidUTF16SurrogateException\( ch, 0, getMemoryManager\(\)\); \} else \{ decodeUTF16SurrogatePair\( ch, chars\[start \+ 1\], getMemoryManager\(\)\); "
+                      r"write\(ch\); write\(chars\[\+\+start\]\); \} return start;", wb):
+        fix_utf16_pairs = True
+        if not re.search(r"writeCDATAChar\s*\([^)]*\)\s*\{\s*assert\s*\([^;]*;\s*return\s+write\s*\(\s*chars\s*,\s*start\s*,\s*length\s*\)\s*;", u16):
+            die("XalanUTF16Writer::writeCDATAChar has an unexpected form")
+    else:
+        die("XalanUTF16Writer::write(chars, start, length) has an unexpected form: " + wb[:200])
+
     def lst(v):
         return "[" + ", ".join(str(x) for x in v) + "]"
 
@@ -233,6 +286,11 @@ def main():
     L.append("def cdataReopenAtEnd : Bool := %s" % ("true" if reopen_at_end else "false"))
     L.append("/-- writeCDATA writes the final `]]>` only when `outsideCDATA == false` -/")
     L.append("def cdataCloseOnlyIfInside : Bool := %s" % ("true" if close_only_if_inside else "false"))
+    L.append("/-- optional repairs found in the source (see XalanModel.C04.Fixes) -/")
+    L.append("def fixNormLiteral : Bool := %s" % ("true" if fix_norm_literal else "false"))
+    L.append("def fixCdataRef : Bool := %s" % ("true" if fix_cdata_ref else "false"))
+    L.append("def fixRejectNonChar : Bool := %s" % ("true" if fix_reject else "false"))
+    L.append("def fixUtf16Pairs : Bool := %s" % ("true" if fix_utf16_pairs else "false"))
     L.append("")
     L.append("end XalanModel.Generated.C04")
     txt = "\n".join(L) + "\n"
@@ -243,6 +301,7 @@ def main():
             f.write(txt)
     side = {"guard": guard, "bracket_outside_writes_open": bracket_outside_writes_open, "reopen_at_end": reopen_at_end,
             "close_only_if_inside": close_only_if_inside, "sizes": sizes,
+            "fixes": {"normLiteral": fix_norm_literal, "cdataRef": fix_cdata_ref, "rejectNonChar": fix_reject, "utf16Pairs": fix_utf16_pairs},
             "lastSpecial": {k: v[0] for k, v in tables.items()}}
     print("c04_tables: ok " + json.dumps(side))
 
